@@ -38,6 +38,10 @@ def run(tier, selftest=False, only=None):
     n = 400 if tier == "quick" else 6000
     cs = cases(rng, n)
     cs += [(m, st) for m, st in cases(rng, n // 8, max_cells=1)]          # make_dxdtf needs size-1 systems
+    # sizes beyond the small ones: many reaction channels, 4-5 species, 18-36 cells or 10-20 nodes of uneven degree
+    for _ in range(6 if tier == "quick" else 40):
+        m = rd_model.large_model(rng)
+        cs.append((m, [[rng.choice(AMOUNTS) for _ in range(m.ncells())] for _ in m.species]))
     rd_law.model_check(rep, cs, "C01")
     spec = rd_eval.evaluate("flaw", rd_law.spec_items(cs), rep)
     impl = rd_law.impl_values(cs)
